@@ -28,7 +28,7 @@ Lemma In_union x a b : In x (union a b) <-> In x a \/ In x b.
 Proof.
   induction a as [|y a IH]; cbn.
   - tauto.
-  - rewrite In_add, IH. tauto.
+  - rewrite In_add, IH. intuition (subst; auto).
 Qed.
 
 (* ---------------------------------------------------------------- invariants of the components *)
@@ -74,10 +74,13 @@ Proof. unfold keeps. repeat split; auto. Qed.
 Lemma keeps_trans a b c : keeps a b -> keeps b c -> keeps a c.
 Proof.
   unfold keeps. intros (A1 & A2 & A3 & A4 & A5) (B1 & B2 & B3 & B4 & B5).
-  repeat split; try congruence; auto.
+  split; [congruence|]. split; [congruence|]. split; [auto|]. split.
   - intros x H. destruct (A4 x H) as [H1|H1]; auto.
-  - intros x H. apply A5. destruct H as [H|H]; [apply B5; auto | apply B5; auto].
+  - intros x H. apply A5, B5, H.
 Qed.
+Lemma keeps_same s s' :
+  has_wc s' = has_wc s -> in_meta s' = in_meta s -> in_wc s' = in_wc s -> in_blob s' = in_blob s -> keeps s s'.
+Proof. unfold keeps. intros -> -> -> ->. repeat split; auto. Qed.
 
 Lemma wc_flush_spec s s1 :
   wc_flush s = Some s1 ->
@@ -86,14 +89,13 @@ Proof.
   unfold wc_flush. destruct (in_wc s) as [|y l] eqn:E.
   - intros H. inversion H; subst. repeat split; auto; apply keeps_refl.
   - destruct (blob_ro s); [discriminate|]. intros H. inversion H; subst; clear H.
-    destruct (wc_ro s); cbn; repeat split; auto; unfold keeps; cbn; repeat split; auto;
-      intros x; rewrite ?In_union, ?E; tauto.
+    destruct (wc_ro s); cbn; (split; [reflexivity|]); (split; [reflexivity|]); (split; [reflexivity|]); (split; [reflexivity|]);
+      unfold keeps; cbn; (split; [reflexivity|]); (split; [reflexivity|]); rewrite ?E; repeat split; intros x; rewrite ?In_union; cbn; tauto.
 Qed.
 
 Lemma comp_switch_spec c m f s s' ok :
   inv s = true -> comp_switch c m f s = (s', ok) ->
   rep s' = rep s /\ keeps s s' /\ inv s' = true
-  /\ (ok = false -> c = CWc -> wcm s' = wcm s /\ blm s' = blm s /\ mbm s' = mbm s)
   /\ match c with
      | CMb => wcm s' = wcm s /\ blm s' = blm s /\ (ok = true -> mb_in m (mbm s') = true)
      | CBlob => wcm s' = wcm s /\ mbm s' = mbm s /\ (ok = true -> bl_in m (blm s') = true)
@@ -103,37 +105,47 @@ Proof.
   unfold inv. intros Hi. apply andb_prop in Hi. destruct Hi as [Hm Hb].
   destruct c; cbn [comp_switch].
   - destruct (mb_switch m f (mbm s)) as [x o] eqn:E. intros H. inversion H; subst; clear H.
-    destruct (mb_switch_spec _ _ _ _ _ Hm E) as [I1 I2]. cbn.
-    repeat split; auto using keeps_refl; try discriminate. unfold inv. cbn. now rewrite I1, Hb.
+    destruct (mb_switch_spec _ _ _ _ _ Hm E) as [I1 I2].
+    split; [reflexivity|]. split; [apply keeps_same; reflexivity|].
+    split; [cbn; now rewrite I1, Hb|]. cbn. auto.
   - destruct (bl_switch m f (blm s)) as [x o] eqn:E. intros H. inversion H; subst; clear H.
-    destruct (bl_switch_spec _ _ _ _ _ Hb E) as [I1 I2]. cbn.
-    repeat split; auto using keeps_refl; try discriminate. unfold inv. cbn. now rewrite I1, Hm.
+    destruct (bl_switch_spec _ _ _ _ _ Hb E) as [I1 I2].
+    split; [reflexivity|]. split; [apply keeps_same; reflexivity|].
+    split; [cbn; now rewrite I1, Hm|]. cbn. auto.
   - destruct (if nometa m && negb (nometa (wc_md s)) then wc_flush s else Some s) as [s1|] eqn:F.
     + assert (rep s1 = rep s /\ wcm s1 = wcm s /\ blm s1 = blm s /\ mbm s1 = mbm s /\ keeps s s1) as (R1 & R2 & R3 & R4 & R5).
       { destruct (nometa m && negb (nometa (wc_md s))).
         - apply wc_flush_spec. exact F.
         - inversion F; subst. repeat split; auto using keeps_refl. }
-      destruct (wc_switch m f (wcm s1)) as [x o] eqn:E. intros H. inversion H; subst; clear H. cbn.
-      repeat split; auto.
-      * unfold keeps in *. cbn. exact R5.
-      * unfold inv. cbn. now rewrite R3, R4, Hm, Hb.
-      * intros Hf _. rewrite <- R2. unfold wc_switch in E. destruct (wcm s1) as [cur b].
-        destruct (nometa m); [inversion E; subst; discriminate|].
-        destruct (fault_eqb f FWc); inversion E; subst; [reflexivity | discriminate].
-      * intros Ho. eapply wc_switch_spec; eauto.
-    + intros H. inversion H; subst; clear H. repeat split; auto using keeps_refl; try discriminate.
-      unfold inv. now rewrite Hm, Hb.
+      destruct (wc_switch m f (wcm s1)) as [x o] eqn:E. intros H. inversion H; subst; clear H.
+      split; [exact R1|].
+      split; [eapply keeps_trans; [exact R5 | apply keeps_same; reflexivity]|].
+      split; [cbn; now rewrite R3, R4, Hm, Hb|].
+      cbn. split; [exact R3|]. split; [exact R4|]. intros Ho. eapply wc_switch_spec; eauto.
+    + intros H. inversion H; subst; clear H.
+      split; [reflexivity|]. split; [apply keeps_refl|]. split; [now rewrite Hm, Hb|].
+      split; [reflexivity|]. split; [reflexivity|]. discriminate.
 Qed.
 
 Definition comp_in (c : comp) (m : md) (s : st) : bool :=
   match c with CMb => mb_in m (mbm s) | CBlob => bl_in m (blm s) | CWc => wc_in m (wcm s) end.
 
-Lemma comp_keeps_other c c2 m f s s' :
-  inv s = true -> comp_switch c2 m f s = (s', true) -> comp_in c m s = true -> comp_in c m s' = true.
+Lemma comp_switch_in c m f s s' :
+  inv s = true -> comp_switch c m f s = (s', true) -> comp_in c m s' = true.
 Proof.
-  intros Hi E H. pose proof (comp_switch_spec _ _ _ _ _ _ Hi E) as (_ & _ & _ & _ & S).
-  destruct c, c2; cbn in *; destruct S as (A & B & C); try (rewrite ?A, ?B; exact H); auto.
+  intros Hi E. pose proof (comp_switch_spec _ _ _ _ _ _ Hi E) as (_ & _ & _ & S).
+  destruct c; cbn; destruct S as (_ & _ & C); exact (C eq_refl).
 Qed.
+
+Lemma comp_keeps_other c c2 m f s s' ok :
+  inv s = true -> comp_switch c2 m f s = (s', ok) -> c <> c2 -> comp_in c m s' = comp_in c m s.
+Proof.
+  intros Hi E N. pose proof (comp_switch_spec _ _ _ _ _ _ Hi E) as (_ & _ & _ & S).
+  destruct c, c2; try (exfalso; apply N; reflexivity); cbn; destruct S as (A & B & _); rewrite ?A, ?B; reflexivity.
+Qed.
+
+Lemma comp_eq_dec (a b : comp) : {a = b} + {a <> b}.
+Proof. decide equality. Qed.
 
 Lemma run_comps_spec cs m f : forall s s' ok,
   inv s = true -> run_comps cs m f s = (s', ok) ->
@@ -141,16 +153,23 @@ Lemma run_comps_spec cs m f : forall s s' ok,
   /\ (ok = true -> forall c, (In c cs \/ comp_in c m s = true) -> comp_in c m s' = true).
 Proof.
   induction cs as [|c cs IH]; intros s s' ok Hi; cbn [run_comps].
-  - intros H. inversion H; subst. repeat split; auto using keeps_refl. intros _ c [[]|H1]. exact H1.
+  - intros H. inversion H; subst.
+    split; [reflexivity|]. split; [apply keeps_refl|]. split; [exact Hi|].
+    intros _ c [[]|H1]. exact H1.
   - destruct (comp_switch c m f s) as [s1 o] eqn:E.
-    pose proof (comp_switch_spec _ _ _ _ _ _ Hi E) as (R & K & I & _ & S).
+    pose proof (comp_switch_spec _ _ _ _ _ _ Hi E) as (R & K & I & _).
     destruct o.
     + intros H. destruct (IH _ _ _ I H) as (R2 & K2 & I2 & P).
-      repeat split; try congruence; eauto using keeps_trans.
-      intros Ho c0 Hc. apply P; auto. destruct Hc as [[->|Hc]|Hc]; auto.
-      * right. destruct c0; cbn; destruct S as (_ & _ & S); auto.
-      * right. eapply comp_keeps_other; eauto.
-    + intros H. inversion H; subst. repeat split; auto. discriminate.
+      split; [congruence|]. split; [eapply keeps_trans; eauto|]. split; [exact I2|].
+      intros Ho c0 Hc. apply P; [exact Ho|].
+      destruct (comp_eq_dec c0 c) as [->|N].
+      * right. eapply comp_switch_in; eauto.
+      * destruct Hc as [[Hc|Hc]|Hc].
+        -- exfalso. apply N. symmetry. exact Hc.
+        -- left. exact Hc.
+        -- right. rewrite (comp_keeps_other _ _ _ _ _ _ _ Hi E N). exact Hc.
+    + intros H. inversion H; subst.
+      split; [exact R|]. split; [exact K|]. split; [exact I|]. discriminate.
 Qed.
 
 Lemma comps_has m wc : In CMb (comps m wc) /\ In CBlob (comps m wc) /\ (wc = true -> In CWc (comps m wc)).
@@ -167,13 +186,15 @@ Proof.
   destruct (run_comps (comps m (has_wc s)) m f s) as [s1 o] eqn:E.
   destruct (run_comps_spec _ _ _ _ _ _ Hi E) as (R & K & I & P).
   destruct o; intros H; inversion H; subst; clear H.
-  - repeat split; auto. intros _. unfold consistent. cbn.
+  - split; [eapply keeps_trans; [exact K | apply keeps_same; reflexivity]|].
+    split; [exact I|]. split; [reflexivity|].
+    intros _. unfold consistent. cbn.
     destruct (comps_has m (has_wc s)) as (C1 & C2 & C3).
     pose proof (P eq_refl CMb (or_introl C1)) as P1. pose proof (P eq_refl CBlob (or_introl C2)) as P2.
     cbn in P1, P2. rewrite P1, P2. cbn.
     destruct K as (Kw & _). rewrite Kw. destruct (has_wc s) eqn:W; [|reflexivity].
     cbn. exact (P eq_refl CWc (or_introl (C3 eq_refl))).
-  - repeat split; auto. discriminate.
+  - split; [exact K|]. split; [exact I|]. split; [exact R|]. discriminate.
 Qed.
 
 Lemma hmf_spec f1 f2 s s' ok :
@@ -269,15 +290,26 @@ Proof.
   - rewrite (inv_modes _ _ (op_modes s x S)). exact Hi.
 Qed.
 
+Lemma do_step_has_wc s x : inv s = true -> has_wc (fst (fst (do_step s x))) = has_wc s.
+Proof.
+  intros Hi. destruct (is_switch x) eqn:S.
+  - destruct x; try discriminate; cbn [do_step].
+    + destruct (set_mode m f s) as [s1 o] eqn:E. cbn. now destruct (set_mode_spec _ _ _ _ _ Hi E) as ((K & _) & _).
+    + destruct (handle_mb_failure f1 f2 s) as [s1 o] eqn:E. cbn. now destruct (hmf_spec _ _ _ _ _ Hi E) as ((K & _) & _).
+  - pose proof (op_modes s x S) as Hm. unfold modes in Hm. inversion Hm. reflexivity.
+Qed.
+
 Lemma run_spec h : forall s settled s' settled',
   inv s = true -> (settled = true -> consistent s = true) ->
   run s settled h = (s', settled') ->
-  inv s' = true /\ (settled' = true -> consistent s' = true).
+  inv s' = true /\ has_wc s' = has_wc s /\ (settled' = true -> consistent s' = true).
 Proof.
   induction h as [|x h IH]; intros s settled s' settled' Hi Hc; cbn [run].
   - intros H. inversion H; subst. auto.
   - destruct (do_step s x) as [[s1 rs] b] eqn:E.
     pose proof (do_step_inv s x Hi) as I1. rewrite E in I1. cbn in I1.
+    pose proof (do_step_has_wc s x Hi) as W1. rewrite E in W1. cbn in W1.
+    intros H. rewrite <- W1. revert H.
     apply IH; [exact I1|].
     destruct (is_switch x) eqn:S.
     + intros Hr. apply res_eqb_eq in Hr. subst rs.
@@ -296,10 +328,11 @@ Proof. destruct wc; split; reflexivity. Qed.
 (* the state after a history *)
 Definition after (wc : bool) (h : list step) : st := fst (run (init wc) true h).
 
-Lemma after_inv wc h : inv (after wc h) = true.
+Lemma after_inv wc h : inv (after wc h) = true /\ has_wc (after wc h) = wc.
 Proof.
   unfold after. destruct (run (init wc) true h) as [s b] eqn:E.
-  destruct (init_inv wc) as [I C]. now destruct (run_spec h _ _ _ _ I (fun _ => C) E).
+  destruct (init_inv wc) as [I C]. destruct (run_spec h _ _ _ _ I (fun _ => C) E) as (A & B & _).
+  split; [exact A | exact B].
 Qed.
 
 (* clause 1, for histories outside the excluded class *)
@@ -307,38 +340,8 @@ Theorem consistent_partial wc h x :
   last_switch_failed wc h = false -> is_op x = true ->
   snd (fst (do_step (after wc h) x)) = ref_res (rep (after wc h)) wc x.
 Proof.
-  unfold last_switch_failed, after. destruct (run (init wc) true h) as [s b] eqn:E. cbn.
-  intros Hb Hop. apply negb_false_iff in Hb. subst b.
-  destruct (init_inv wc) as [I C]. destruct (run_spec h _ _ _ _ I (fun _ => C) E) as [I2 C2].
-  rewrite (consistent_ref s x (C2 eq_refl) Hop). f_equal.
-  (* has_wc never changes *)
-  clear - E. revert E. generalize true at 1. generalize (init wc) as s0.
-  assert (G : forall h s0 b0 s b, run s0 b0 h = (s, b) -> has_wc s = has_wc s0).
-  { clear. induction h as [|x h IH]; intros s0 b0 s b; cbn [run].
-    - intros H. inversion H. reflexivity.
-    - destruct (do_step s0 x) as [[s1 rs] fb] eqn:E. intros H. rewrite (IH _ _ _ _ H).
-      destruct (is_switch x) eqn:S.
-      + destruct x; try discriminate; cbn [do_step] in E.
-        * unfold set_mode in E. destruct (run_comps (comps m (has_wc s0)) m f s0) as [s2 o] eqn:E2.
-          assert (has_wc s2 = has_wc s0).
-          { clear E. revert s0 s2 o E2. generalize (comps m (has_wc s0)). intros cs. induction cs as [|c cs IHc]; intros s0 s2 o; cbn [run_comps].
-            - intros H0. inversion H0. reflexivity.
-            - destruct (comp_switch c m f s0) as [s3 o3] eqn:E3.
-              assert (has_wc s3 = has_wc s0).
-              { destruct c; cbn [comp_switch] in E3.
-                - destruct (mb_switch m f (mbm s0)); inversion E3; reflexivity.
-                - destruct (bl_switch m f (blm s0)); inversion E3; reflexivity.
-                - destruct (if nometa m && negb (nometa (wc_md s0)) then wc_flush s0 else Some s0) as [s4|] eqn:F.
-                  + assert (has_wc s4 = has_wc s0).
-                    { destruct (nometa m && negb (nometa (wc_md s0))).
-                      - unfold wc_flush in F. destruct (in_wc s0); [inversion F; reflexivity|].
-                        destruct (blob_ro s0); [discriminate|]. inversion F. destruct (wc_ro s0); reflexivity.
-                      - inversion F. reflexivity. }
-                    destruct (wc_switch m f (wcm s4)); inversion E3; cbn; assumption.
-                  + inversion E3. reflexivity. }
-              destruct o3; intros H0; [rewrite (IHc _ _ _ H0); assumption | inversion H0; subst; assumption]. }
-          destruct o; inversion E; subst; cbn; assumption.
-        * admit_placeholder.
-      + pose proof (op_modes s0 x S) as Hm. rewrite E in Hm. cbn in Hm. unfold modes in Hm. inversion Hm. reflexivity. }
-  intros s0 b0 E. rewrite (G _ _ _ _ _ E). reflexivity.
+  intros Hb Hop. destruct (after_inv wc h) as [_ W]. rewrite <- W at 2. apply consistent_ref; [|exact Hop].
+  unfold last_switch_failed in Hb. unfold after. destruct (run (init wc) true h) as [s b] eqn:E. cbn in *.
+  apply negb_false_iff in Hb. subst b.
+  destruct (init_inv wc) as [I C]. destruct (run_spec h _ _ _ _ I (fun _ => C) E) as (_ & _ & C2). auto.
 Qed.
